@@ -129,6 +129,7 @@ def run(ctx):
     ctx.guard(rule_ab, ctx, ix)
     ctx.guard(rule_c, ctx, ix)
     ctx.guard(rule_d, ctx, ix)
+    ctx.guard(rule_e, ctx, ix)
 
 
 def rule_ab(ctx, ix):
@@ -262,3 +263,35 @@ def rule_d(ctx, ix):
     ok = any('shape' in unparse(r.value) and '==' in unparse(r.value) for r in rets if r.value is not None)
     ctx.ob(R, f.construct, 'the check compares the component shape with the dataset shape', ok,
            detail='Data._check_can_add no longer compares component.shape with self.shape', where=f.where)
+
+
+def rule_e(ctx, ix):
+    """Lookup by name returns the unique match or nothing: an ambiguous label in one category must not fall through to the next."""
+    R = 'C17.e'
+    ctx.describe(R, 'name lookup: unique match is returned, an ambiguous one yields None (no fall-through to later categories)', floor=3)
+    data = ix.cls('glue.core.data.Data')
+    f = data.resolve_func('find_component_id')
+    if f is None:
+        raise AnalysisError('Data.find_component_id vanished')
+    loops = [n for n in body_stmts(f.node) if isinstance(n, ast.For)]
+    if len(loops) != 1:
+        raise AnalysisError('Data.find_component_id: category loop not recognised')
+    lp = loops[0]
+    cats = unparse(lp.iter)
+    order = [cats.find(x) for x in ('main_components', 'derived_components', 'coordinate_components', '_externally_derivable_components')]
+    ctx.ob(R, f.construct + ' precedence', 'categories are searched in the order main > derived > coordinate > linked',
+           all(o >= 0 for o in order) and order == sorted(order),
+           detail='find_component_id searches the categories as %s' % cats, where=where(f, lp))
+    uniq = amb = False
+    for n in ast.walk(lp):
+        if isinstance(n, ast.If):
+            t = unparse(n.test).replace(' ', '')
+            if t == 'len(result)==1' and any(isinstance(x, ast.Return) and x.value is not None and 'result[0]' in unparse(x.value) for x in n.body):
+                uniq = True
+            if t in ('len(result)>1', 'len(result)>=2') and any(isinstance(x, ast.Return) and (x.value is None or unparse(x.value) == 'None') for x in n.body):
+                amb = True
+    ctx.ob(R, f.construct + ' unique', 'exactly one match in a category is returned', uniq,
+           detail='find_component_id no longer returns the single match of a category', where=where(f, lp))
+    ctx.ob(R, f.construct + ' ambiguous', 'more than one match in a category yields None', amb,
+           detail='find_component_id no longer returns None when a label is ambiguous within a category: the search falls through and '
+                  'returns a component of a later category that happens to carry the label once (a non-unique match)', where=where(f, lp))
